@@ -51,5 +51,6 @@ Bonded(i, j) == i # j /\ Lhs(PtOf(i), PtOf(j)) < Rhs(ElOf(i), ElOf(j))
 Emit == PrintT("K|" \o JObj(<<
    JKV("els", JIntSeq([i \in Idx |-> ElOf(i)])),
    JKV("pts", JArr([i \in Idx |-> JIntSeq(PtOf(i))])),
+   JKV("cut1000", IF PairMode THEN JInt(12 * (Radius(els[1]) + Radius(els[2]))) ELSE "0"),   \* cutoff in 0.001 A, exact
    JKV("bonds", JSetArr({ JIntSeq(<<q[1], q[2]>>) : q \in { r \in Idx \X Idx : r[1] < r[2] /\ Bonded(r[1], r[2]) } })) >>))
 =============================================================================
